@@ -34,6 +34,7 @@ Init == /\ tid \in 1..Len(Traces) /\ l = 1
 
 Apply(S, e) ==
   CASE e.a = "add" -> DoAdd(S, e.h, e.x, e.kind, e.op, e.parents, SeqSet(e.privs), e.kind = "prior")
+    [] e.a = "addedge" -> DoAddEdge(S, e.h, e.y, e.x, e.v)
     [] e.a = "become" -> DoBecome(S, e.h, e.x, e.y)
     [] e.a = "remove" -> DoRemove(S, e.h, e.x)
     [] e.a = "setparams" -> DoSetParams(S, e.h, SeqSet(e.P))
